@@ -726,6 +726,12 @@ impl RdfPlanner {
         let predicate = self.component_to_term(&insert.predicate)?;
         let object = self.component_to_term(&insert.object)?;
 
+        if !is_well_formed_triple(&subject, &predicate) {
+            return Err(Error::Internal(
+                "INSERT DATA: the subject must be an IRI or blank node and the predicate an IRI"
+                    .to_string(),
+            ));
+        }
         let triple = Triple::new(subject, predicate, object);
         let operator = Box::new(RdfInsertTripleOperator::new(
             Arc::clone(&self.store),
@@ -805,6 +811,12 @@ impl RdfPlanner {
         let predicate = self.component_to_term(&delete.predicate)?;
         let object = self.component_to_term(&delete.object)?;
 
+        if !is_well_formed_triple(&subject, &predicate) {
+            return Err(Error::Internal(
+                "DELETE DATA: the subject must be an IRI or blank node and the predicate an IRI"
+                    .to_string(),
+            ));
+        }
         let triple = Triple::new(subject, predicate, object);
         let operator = Box::new(RdfDeleteTripleOperator::new(
             Arc::clone(&self.store),
@@ -1038,6 +1050,11 @@ impl RdfInsertPatternOperator {
     }
 }
 
+/// RDF allows only IRIs and blank nodes as subjects and only IRIs as predicates.
+fn is_well_formed_triple(subject: &Term, predicate: &Term) -> bool {
+    (subject.is_iri() || subject.is_blank_node()) && predicate.is_iri()
+}
+
 impl Operator for RdfInsertPatternOperator {
     fn next(&mut self) -> std::result::Result<Option<DataChunk>, OperatorError> {
         if self.done {
@@ -1053,7 +1070,10 @@ impl Operator for RdfInsertPatternOperator {
                 let predicate = self.resolve_component(&self.predicate, &chunk, row);
                 let object = self.resolve_component(&self.object, &chunk, row);
 
-                if let (Some(s), Some(p), Some(o)) = (subject, predicate, object) {
+                // An instantiation that is not a legal triple is left out
+                if let (Some(s), Some(p), Some(o)) = (subject, predicate, object)
+                    && is_well_formed_triple(&s, &p)
+                {
                     triples_to_insert.push(Triple::new(s, p, o));
                 }
             }
@@ -1248,7 +1268,9 @@ impl Operator for RdfDeletePatternOperator {
                 let predicate = self.resolve_component(&self.predicate, &chunk, row);
                 let object = self.resolve_component(&self.object, &chunk, row);
 
-                if let (Some(s), Some(p), Some(o)) = (subject, predicate, object) {
+                if let (Some(s), Some(p), Some(o)) = (subject, predicate, object)
+                    && is_well_formed_triple(&s, &p)
+                {
                     triples_to_delete.push(Triple::new(s, p, o));
                 }
             }
@@ -1481,7 +1503,9 @@ impl Operator for RdfModifyOperator {
                 let predicate = self.resolve_component(&template.predicate, chunk, *row);
                 let object = self.resolve_component(&template.object, chunk, *row);
 
-                if let (Some(s), Some(p), Some(o)) = (subject, predicate, object) {
+                if let (Some(s), Some(p), Some(o)) = (subject, predicate, object)
+                    && is_well_formed_triple(&s, &p)
+                {
                     let triple = Triple::new(s, p, o);
                     self.store.remove(&triple);
                 }
@@ -1495,7 +1519,9 @@ impl Operator for RdfModifyOperator {
                 let predicate = self.resolve_component(&template.predicate, chunk, *row);
                 let object = self.resolve_component(&template.object, chunk, *row);
 
-                if let (Some(s), Some(p), Some(o)) = (subject, predicate, object) {
+                if let (Some(s), Some(p), Some(o)) = (subject, predicate, object)
+                    && is_well_formed_triple(&s, &p)
+                {
                     let triple = Triple::new(s, p, o);
                     self.store.insert(triple);
                 }
